@@ -158,6 +158,7 @@ func runTest(cfg *config.Config, pkgpath, runPattern string, appArgs ...string) 
 			continue
 		}
 		if err != nil {
+			fmt.Printf("---- %s.%s\n", prog.Manifest.MainPkg, t.Name)
 			if len(stdout) > 0 {
 				if s := sWithPrefix(string(stdout), "    "); s != "" {
 					fmt.Println(s)
@@ -173,6 +174,7 @@ func runTest(cfg *config.Config, pkgpath, runPattern string, appArgs ...string) 
 				}
 			}
 
+			fmt.Printf("FAIL %s %v\n", prog.Manifest.MainPkg, time.Since(startTime).Round(time.Millisecond))
 			os.Exit(1)
 		}
 
@@ -264,6 +266,7 @@ func runTest(cfg *config.Config, pkgpath, runPattern string, appArgs ...string) 
 			continue
 		}
 		if err != nil {
+			fmt.Printf("---- %s.%s\n", prog.Manifest.MainPkg, t.Name)
 			if len(stdout) > 0 {
 				if s := sWithPrefix(string(stdout), "    "); s != "" {
 					fmt.Println(s)
@@ -273,8 +276,13 @@ func runTest(cfg *config.Config, pkgpath, runPattern string, appArgs ...string) 
 				if s := sWithPrefix(string(stderr), "    "); s != "" {
 					fmt.Println(s)
 				}
+			} else {
+				if s := sWithPrefix(err.Error(), "    "); s != "" {
+					fmt.Println(s)
+				}
 			}
 
+			fmt.Printf("FAIL %s %v\n", prog.Manifest.MainPkg, time.Since(startTime).Round(time.Millisecond))
 			os.Exit(1)
 		}
 
